@@ -59,6 +59,9 @@ pub fn c09(ctx: &mut Ctx) -> R {
             cfg.orig.push(("Authorization".into(), b"Basic ejp3".to_vec()));
         }
     }
+    if ctx.chance(1, 4) {
+        cfg.orig.push(("connection".into(), b"close".to_vec()));
+    }
     // despite-method is applied by the walk itself in Prepare
     let want_despite = cfg.despite;
     cfg.despite = false;
